@@ -271,6 +271,22 @@ func checkC15(t TB, c HistoryCase) c15Outcome {
 			if got := lazy.Content(); got != string(s.Content) {
 				failf(t, P, K, c, "call %d: the input buffer was overwritten right after Encode returned, before anything was read from the barcode: Content() is %q (barcode is not a snapshot)", i, truncS([]byte(got)))
 			}
+			// the caller's buffer is reused for the next payload (same address, same length, other bytes)
+			for j := range buf2 {
+				buf2[j] = s.Content[len(s.Content)-1-j] ^ byte(j&1)
+			}
+			other := append([]byte(nil), buf2...)
+			var reused, fresh barcode.Barcode
+			var e1, e2 error
+			if rpv := try(func() {
+				reused, e1 = aztec.Encode(buf2, s.A, s.B)
+				fresh, e2 = aztec.Encode(append([]byte(nil), other...), s.A, s.B)
+			}); rpv != nil {
+				failf(t, P, K, c, "call %d: aztec encode of a reused buffer: %v", i, rpv)
+			}
+			if (e1 == nil) != (e2 == nil) || (e1 == nil && enc.Fingerprint(reused, nil, nil) != enc.Fingerprint(fresh, nil, nil)) {
+				failf(t, P, K, c, "call %d: a payload written into the buffer that held the previous payload gives another barcode (pixels or Content()) than the same bytes in a fresh buffer", i)
+			}
 			if fp3 := enc.Fingerprint(lazy, nil, nil); fp3 != inproc[i] {
 				failf(t, P, K, c, "call %d: the input buffer was overwritten right after Encode returned, before anything was read from the barcode: pixels/accessors differ from those of the same call", i)
 			}
@@ -716,7 +732,7 @@ func TestC15Eviction(t *testing.T) {
 		{EncSpec{Fam: "code128nc", Content: BStr("1234")}, 20000, digits(6)}, {EncSpec{Fam: "ean", Content: BStr("1234567")}, 20000, digits(7)}, {EncSpec{Fam: "ean", Content: BStr("590123412345")}, 20000, digits(12)},
 		{EncSpec{Fam: "codabar", Content: BStr("A12-3$B")}, 20000, func(i int) BStr { return BStr(fmt.Sprintf("B%d-%dC", i, i%9)) }}, {EncSpec{Fam: "2of5", Content: BStr("12345")}, 20000, digits(6)},
 		{EncSpec{Fam: "itf", Content: BStr("123456")}, 20000, digits(8)},
-		{EncSpec{Fam: "qr", Content: BStr("FIRST QR"), A: 1, B: 0}, 9000, func(i int) BStr { return BStr(fmt.Sprintf("qr %d/%x", i, i)) }}, {EncSpec{Fam: "datamatrix", Content: BStr("first dm")}, 9000, func(i int) BStr { return BStr(fmt.Sprintf("dm%d", i)) }},
+		{EncSpec{Fam: "qr", Content: BStr("FIRST QR SYMBOL, LARGER THAN THE ONES THAT FOLLOW 0123456789"), A: 1, B: 0}, 9000, func(i int) BStr { return BStr(fmt.Sprintf("qr %d/%x", i, i)) }}, {EncSpec{Fam: "datamatrix", Content: BStr("first DataMatrix symbol, larger than the ones that follow: 0123456789 abcdefghij")}, 20000, func(i int) BStr { return BStr(fmt.Sprintf("dm%d", i)) }},
 		{EncSpec{Fam: "aztec", Content: BStr("First Aztec"), A: 33}, 9000, func(i int) BStr { return BStr(fmt.Sprintf("az %d.", i)) }}, {EncSpec{Fam: "pdf417", Content: BStr("First PDF417"), A: 1}, 9000, func(i int) BStr { return BStr(fmt.Sprintf("pdf %d;", i)) }},
 	}
 	parallelFor(len(fams), 16, func(k int) {
@@ -729,15 +745,32 @@ func TestC15Eviction(t *testing.T) {
 			first := enc.Fingerprint(bc, err, pv)
 			probes := []EncSpec{f.spec}
 			fps := []string{first}
-			for i := 0; i < f.n; i++ {
+			// the first call is repeated after exactly 255, 256, 257, 8192, 32768, 65535 and 65536 other calls (run
+			// counters and stamps kept in 8 or 16 bits wrap around there), counted from its previous occurrence
+			targets := []int{255, 256, 257, 8192}
+			if f.n >= 20000 || thorough() {
+				targets = append(targets, 32768, 65535, 65536)
+			}
+			since, ti, total := 0, 0, 0
+			for i := 0; ti < len(targets) || i < f.n; i++ {
 				o := f.spec
 				o.Content = f.other(i)
 				obc, oerr, opv := encodeSpec(o)
+				total++
 				if i < 3 || i == 4000 {
 					probes = append(probes, o)
 					fps = append(fps, enc.Fingerprint(obc, oerr, opv))
 				}
+				since++
+				if ti < len(targets) && since == targets[ti] {
+					bcx, errx, pvx := encodeSpec(f.spec)
+					if fp := enc.Fingerprint(bcx, errx, pvx); fp != first {
+						failf(ct, "C15", "purity", HistoryCase{Calls: []EncSpec{f.spec}}, "the call (%s, content %q) returns a different barcode when it is repeated after exactly %d other %s calls", f.spec.Label(), truncS(f.spec.Content), targets[ti], f.spec.Fam)
+					}
+					since, ti = 0, ti+1
+				}
 			}
+			f.n = total
 			for j, p := range probes {
 				bc2, err2, pv2 := encodeSpec(p)
 				if fp := enc.Fingerprint(bc2, err2, pv2); fp != fps[j] {
